@@ -368,7 +368,7 @@ fn apply(store: &mut MetaStore, op: &Value) -> String {
 }
 
 #[test]
-fn verif_replay() {
+fn verif_replay_broker() {
     let path = match std::env::var("VERIF_REPLAY_FILE") {
         Ok(p) => p,
         Err(_) => return,
